@@ -138,15 +138,21 @@ Proof.
     + cbn [bind]. apply safe_ok.
 Qed.
 
+Lemma escape_json_g_safe fx s : no_fffd s -> safe (escape_json_g fx s).
+Proof.
+  intros H. unfold escape_json_g. pose proof (blen_nonneg s).
+  apply escape_go_safe; [right; exact H|lia|lia|unfold blen; lia|lia].
+Qed.
+
 Lemma escape_json_safe s : no_fffd s -> safe (escape_json s).
 Proof.
-  intros H. unfold escape_json, escape_fuel. pose proof (blen_nonneg s).
+  intros H. unfold escape_json, escape_json_g. pose proof (blen_nonneg s).
   apply escape_go_safe; [right; exact H|lia|lia|unfold blen; lia|lia].
 Qed.
 
 Lemma escape_json_fixed_safe s : safe (escape_json_fixed s).
 Proof.
-  unfold escape_json_fixed. pose proof (blen_nonneg s).
+  unfold escape_json_fixed, escape_json_g. pose proof (blen_nonneg s).
   apply escape_go_safe; [left; reflexivity|lia|lia|unfold blen; lia|lia].
 Qed.
 
